@@ -876,9 +876,10 @@ def render(t):
     L.append("]")
     L.append("")
     L.append("/-- the effect summary of the code base, as one record -/")
-    L.append("def tables : Tables := { rngSites := rngSites, seedPoints := seedPoints, sharedMutations := sharedMutations,")
-    L.append("  prologueRngSites := prologueRngSites, copyHooks := copyHooks, simulateDeepCopies := simulateDeepCopies,")
-    L.append("  simulateUsesOnlyCopy := simulateUsesOnlyCopy, nondetSites := nondetSites }")
+    L.append("def tables : Tables where")
+    for fld in ("rngSites", "seedPoints", "sharedMutations", "prologueRngSites", "copyHooks", "simulateDeepCopies",
+                "simulateUsesOnlyCopy", "nondetSites"):
+        L.append(f"  {fld} := {fld}")
     L.append("")
     L.append("end LdarModel.Generated.Effects")
     return "\n".join(L) + "\n"
